@@ -411,7 +411,13 @@ def run(repo, rep):
                             for s2 in ast.walk(fn):
                                 if isinstance(s2, ast.Assign) and any(isinstance(tt, ast.Name) and tt.id == t.value.id for tt in s2.targets) and isinstance(s2.value, ast.Call):
                                     fresh = True
-                        if key in allowed:
+                        if key == ("tflite_graph_optimiser", "check_asymmetric_weights"):
+                            # an enforced placement rule: it must be one the report lists
+                            md_txt = repo.read_text("SUPPORTED_OPS.md").lower()
+                            rep.check("asymmetric" in md_txt or "zero point" in md_txt and "weight" in md_txt.split("zero point")[0][-200:], "C16-a", f"ethosu/vela/{m.name}.py:{q}",
+                                      "the rule that sends operators with asymmetric integer weights to the CPU is listed in SUPPORTED_OPS.md",
+                                      "`op.run_on_npu = False` for convolutions whose int8 / int16 weights have a non-zero zero point is enforced but appears in no constraint list and not in the report")
+                        elif key in allowed:
                             rep.ok("C16-d", f"ethosu/vela/{m.name}.py:{q}", f"{norm(node)[:90]}", allowed[key])
                         elif fresh:
                             rep.ok("C16-d", f"ethosu/vela/{m.name}.py:{q}", f"{norm(node)[:90]}", "freshly created operation")
